@@ -650,6 +650,14 @@ class _Exporter:
         ]
         return "".join(text)
 
+    def _default_opset_argument(self, opsets: dict[str, int]) -> str:
+        """With use_operators a function may consist of python operators only: name the opset they denote."""
+        if self.use_operators:
+            for domain in ("", "ai.onnx"):
+                if domain in opsets:
+                    return f"default_opset={self._make_opset_name(domain, opsets[domain])}"
+        return ""
+
     def _translate_opset_import(self, domain: str, version: int) -> str:
         if domain in {"", "ai.onnx"}:
             return f"from onnxscript.onnx_opset import opset{version}\n"
@@ -711,7 +719,8 @@ class _Exporter:
             result.append(line)
 
         opset_name = self._make_opset_name(funproto.domain, 1)
-        add_line(f"@script({opset_name})")
+        default_opset = self._default_opset_argument(opsets)
+        add_line(f"@script({opset_name}{', ' if default_opset else ''}{default_opset})")
         fun_name = self._make_callee_name(funproto.domain, 1, funproto.name)
         fun_sig = self._translate_function_signature(funproto)
         add_line(f"def {fun_name}{fun_sig}")
@@ -752,7 +761,7 @@ class _Exporter:
         return_values = ", ".join(self._translate_onnx_var_ref(x.name) for x in graph.output)
         self._name_remappings.pop()
         signature = _translate_signature(graph.input, graph.output, self._translate_onnx_var)
-        add(f"{indent}@script()")
+        add(f"{indent}@script({self._default_opset_argument(opsets)})")
         add(f"{indent}def {function_name}{signature}")
         indent = indent + _SINGLE_INDENT
         doc = graph.doc_string
